@@ -176,6 +176,11 @@ struct Entry {
     run: fn(&[u128]) -> (Option<Vec<u128>>, Vec<Option<u128>>),
     show_src: fn(u128) -> String,
     show_dst: fn(u128) -> String,
+    /// the source-type value nearest to an f64 (used for float sources only)
+    from_f64: fn(f64) -> Option<u128>,
+}
+fn of_f64<S: Prim>(x: f64) -> Option<u128> {
+    <S as NumCast>::from(x).map(|v: S| v.bits())
 }
 fn entry<S: Prim, T: Prim, C: Comp<S>>() -> Entry {
     Entry {
@@ -188,6 +193,7 @@ fn entry<S: Prim, T: Prim, C: Comp<S>>() -> Entry {
         run: run_entry::<S, T, C>,
         show_src: S::show,
         show_dst: T::show,
+        from_f64: of_f64::<S>,
     }
 }
 fn entry_quat<S: Prim, T: Prim + cgmath::BaseFloat>() -> Entry {
@@ -201,6 +207,7 @@ fn entry_quat<S: Prim, T: Prim + cgmath::BaseFloat>() -> Entry {
         run: run_quat::<S, T>,
         show_src: S::show,
         show_dst: T::show,
+        from_f64: of_f64::<S>,
     }
 }
 fn entries_for<S: Prim, T: Prim>(out: &mut Vec<Entry>) {
@@ -385,6 +392,41 @@ macro_rules! for_targets {
     };
 }
 
+/// float sources: whole values of (nearly) unit length - unit quaternions, normalised vectors, orthonormal columns, and
+/// the same scaled by 1 +- 2^-k: a cast that "repairs" the result (renormalises, re-orthogonalises) changes components
+/// that every scalar cast leaves alone
+fn near_unit(rep: &mut Report, e: &Entry) {
+    let n = e.n;
+    let mut scales: Vec<f64> = vec![1.0];
+    for k in (8..=52).step_by(4) {
+        scales.extend([1.0 + 2f64.powi(-k), 1.0 - 2f64.powi(-k)]);
+    }
+    let nb = 3;
+    rep.cases(
+        &format!("{}/{}->{}/near-unit", e.comp, e.src, e.dst),
+        "I",
+        &format!("3 generic values normalised to length 1 (rounded to the source type) x {} scales 1 +- 2^-k", scales.len()),
+        nb * scales.len(),
+        Guard::states(2),
+        |i, ctx| {
+            let (b, sc) = (i / scales.len(), scales[i % scales.len()]);
+            let g: Vec<f64> = alphabet::generic(n, b).iter().map(|r| r.0 as f64 / r.1 as f64).collect();
+            let norm = g.iter().map(|x| x * x).sum::<f64>().sqrt();
+            let bits: Vec<u128> = g.iter().map(|x| (e.from_f64)(x / norm * sc).unwrap()).collect();
+            ctx.describe(|| format!("{}<{}>[{}] -> {}", e.comp, e.src, bits.iter().map(|x| (e.show_src)(*x)).collect::<Vec<_>>().join(", "), e.dst));
+            ctx.out(&bits);
+            ctx.t();
+            let (got, scalar) = (e.run)(&bits);
+            let name = e.comp;
+            match got {
+                Some(r) if r.len() == scalar.len() && r.iter().zip(&scalar).all(|(a, b)| Some(*a) == *b) => {}
+                Some(r) => ctx.fail(&key(&format!("{name}/component-faithful")), || format!("cast = {:?}, scalar casts give {:?}", r.iter().map(|b| (e.show_dst)(*b)).collect::<Vec<_>>(), scalar.iter().map(|x| x.map(|b| (e.show_dst)(b))).collect::<Vec<_>>())),
+                None => { ctx.check(scalar.iter().any(|c| c.is_none()), &key(&format!("{name}/none-iff-a-component-fails")), || "cast = None although every component converts".to_string()); }
+            }
+        },
+    );
+}
+
 fn main() {
     let mut rep = Report::from_args(P);
     rep.assume("oracle: num_traits::NumCast::from of the same crate version applied per component; with num-traits 0.2.19 no primitive -> f32/f64 conversion fails, so the None path of Quaternion::cast is reached with a failing custom source scalar and with the exact rational target");
@@ -403,6 +445,9 @@ fn main() {
     for_targets!(f64, &mut table);
     for e in &table {
         explore(&mut rep, e);
+        if (e.src == "f32" || e.src == "f64") && (e.dst == "f32" || e.dst == "f64") {
+            near_unit(&mut rep, e);
+        }
     }
     failing_paths(&mut rep);
     std::process::exit(rep.finish());
